@@ -51,7 +51,7 @@ ASSUMPTIONS = [
     'successful first uses are followed up',
     'OPTION BASE: in a fresh session it must succeed; with arrays in existence a different base must '
     'be refused (Duplicate definition) and the same base may be accepted or refused; an explicitly '
-    'set base persists over ERASE (so the other base stays refused when no array is left); whether the implicit base 0 survives the ERASE of the last array '
+    'set base persists over ERASE; whether the implicit base 0 survives the ERASE of the last array '
     'is left open (both outcomes accepted)',
     'DIM with a bound below the OPTION BASE must fail (any of error 9 / 5) and create nothing',
     'first use of a 4-dimensional array whose 0..10 / 1..10 elements need more than 50000 bytes may '
@@ -462,10 +462,8 @@ class HRef(object):
                 return {None}
             if have:
                 return {None, E_DUP} if n == self.eff() else {E_DUP}
-            # no arrays left: a base that was set explicitly stays (only CLEAR forgets it), so the
-            # other base is refused; where the 0 may have been implicit (ZU) either answer is taken
-            if b in ('ZE', 'ONE') and n != self.eff():
-                return {E_DUP}
+            # no arrays left: the statement does not say when OPTION BASE may be repeated; either answer is
+            # taken and the reference follows the base the interpreter adopted
             return {None, E_DUP}
         if k == 'dim':
             if op[1] in self.arrays:
